@@ -19,4 +19,8 @@ class appendix(Command): # type: ignore
 
     def invoke(self, tex):
         self.ownerDocument.context.counters['section'].setcounter(0)
-        self.ownerDocument.context['thesection'] = type(self).thesection 
+        context = self.ownerDocument.context
+        # Like \gdef: replace a \renewcommand{\thesection} made at an inner group level
+        for c in context.contexts[1:]:
+            c.pop('thesection', None)
+        context['thesection'] = type(self).thesection 
